@@ -32,7 +32,10 @@ def run_history(ops, start_with_runtime):
         stack = []         # model: list of override dicts
         cms = []           # entered runtime objects (for exit)
         base = {}
-        if start_with_runtime:
+        if start_with_runtime == "inherit":
+            runtime.inherit(parent)
+            base.update({"A": "inh"})
+        elif start_with_runtime:
             runtime.current_runtime()
         try:
             for op in ops:
@@ -80,9 +83,21 @@ def run_history(ops, start_with_runtime):
             observed.append(f"CRASH {type(e).__name__}: {e}")
             expected.append("no crash")
         out["r"] = (observed, expected)
+    parent = threading.current_thread()
     th = threading.Thread(target=body)
-    th.start()
-    th.join()
+    if start_with_runtime == "inherit":
+        def launcher():
+            nonlocal parent
+            parent = threading.current_thread()
+            with Runtime({A: tagger("inh")}):
+                th.start()
+                th.join()
+        lt = threading.Thread(target=launcher)
+        lt.start()
+        lt.join()
+    else:
+        th.start()
+        th.join()
     return out["r"]
 
 
@@ -107,7 +122,7 @@ def search(seed=0, budget=4000, max_len=7):
         [("default", "A", "defA"), ("run", "A"), ("default", "A", "defA2"), ("run", "A")],
         [("new", "r", "A", "r"), ("derive", "e", "r", "B", "e"), ("enter", "r"), ("run", "B"), ("exit", True), ("enter", "e"), ("run", "A"), ("run", "B")],
     ]
-    for swr in (False, True):
+    for swr in (False, True, "inherit"):
         for h in directed:
             obs, exp = run_history(h, swr)
             if obs != exp:
@@ -115,7 +130,7 @@ def search(seed=0, budget=4000, max_len=7):
     for _ in range(budget):
         n = rnd.randint(2, max_len)
         h = [rnd.choice(ALPHABET) for _ in range(n)] + [("run", "A"), ("run", "B")]
-        swr = rnd.random() < 0.5
+        swr = rnd.choice([False, True, "inherit"])
         obs, exp = run_history(h, swr)
         if obs != exp:
             # shrink greedily
